@@ -25,7 +25,7 @@ from irispie.series import arip as ARIP
 from .common import Ctx, err_kind
 
 DRIVERS = ["C12"]
-EXTRA_PROPS = ['BridgeC12']   # refinement bridge from the executable QMat model to the matrix-level theorems (audited with this check)
+EXTRA_PROPS = ['BridgeC12', 'C12Ext']   # refinement bridge from the executable QMat model to the matrix-level theorems (audited with this check)
 LEVEL = "proof"
 MANIFEST = {
     "category": "proof",
@@ -146,6 +146,21 @@ def parse_ser_line(ws, nmid):
     return f, t, start, mid, nv, rows
 
 
+def parse_opt_line(ws):
+    """opt <discard_missing -|0|1> <remove_missing -|0|1> <method -|name> <F> <T> <start> <nv> <n> v…"""
+    dm, rm, meth = ws[1:4]
+    kw = {}
+    if dm != "-":
+        kw["discard_missing"] = dm == "1"
+    if rm != "-":
+        kw["remove_missing"] = rm == "1"
+    if meth != "-":
+        kw["method"] = meth
+    f, t, start, nv, n = ws[4], ws[5], int(ws[6]), int(ws[7]), int(ws[8])
+    vals = [vparse(w) for w in ws[9:]]
+    return kw, f, t, start, nv, [vals[i * nv:(i + 1) * nv] for i in range(n)]
+
+
 def parse_select(s):
     if s == "-":
         return None
@@ -166,6 +181,14 @@ def impl_eval(line: str) -> str:
             f, t, start, (m, disc, sel), nv, rows = parse_ser_line(ws, 3)
             x = mk_series(f, start, nv, rows)
             y = ir.aggregate(x, FREQ[t], method=m, discard_missing=(disc == "1"), select=parse_select(sel))
+            return show_series(y)
+        if op == "opt":
+            kw, f, t, start, nv, rows = parse_opt_line(ws)
+            y = ir.aggregate(mk_series(f, start, nv, rows), FREQ[t], **kw)
+            x2 = mk_series(f, start, nv, rows)
+            x2.aggregate(FREQ[t], **kw)                       # the in-place method form must give the same series
+            if show_series(x2) != show_series(y):
+                return "form-mismatch function=" + show_series(y) + " method=" + show_series(x2)
             return show_series(y)
         if op == "dis":
             f, t, start, (m,), nv, rows = parse_ser_line(ws, 1)
@@ -408,7 +431,25 @@ def oracle_rt(ctx: Ctx, line: str, reply: str):
                  f"aggregate('{m}') of disaggregate('{dm}', {t}) differs from the original: start {gstart} rows {grows[:4]} vs start {estart} rows {erows[:4]}")
 
 
-ORACLES = {"agg": oracle_agg, "dis": oracle_dis, "rt": oracle_rt}
+def oracle_opt(ctx: Ctx, line: str, reply: str):
+    """keyword resolution as documented: discard_missing defaults to False and an explicit value is obeyed; the legacy
+    keyword remove_missing stands in for it only when discard_missing is not given; the default method is "mean";
+    function form and in-place method form agree. Judged through the membership oracle with the resolved options."""
+    ws = line.split()
+    dm, rm, meth = ws[1:4]
+    if reply.startswith("form-mismatch"):
+        ctx.fail("aggregate-forms-differ", {"line": line}, reply[:300])
+        return
+    disc = dm if dm != "-" else (rm if rm != "-" else "0")
+    before = len(ctx.failures)
+    oracle_agg(ctx, " ".join(["agg", ws[4], ws[5], ws[6], meth if meth != "-" else "mean", disc, "-"] + ws[7:]), reply)
+    for fl in ctx.failures[before:]:
+        fl["site"] = "aggregate-options"
+        fl["case"] = {"line": line}
+        fl["detail"] = f"keywords discard_missing={dm} remove_missing={rm} method={meth}: " + fl["detail"]
+
+
+ORACLES = {"agg": oracle_agg, "dis": oracle_dis, "rt": oracle_rt, "opt": oracle_opt}
 
 
 # ---------------------------------------------------------------------------------------
@@ -811,6 +852,29 @@ def gen_agg_select(ctx: Ctx):
     return lines
 
 
+def gen_options(ctx: Ctx):
+    """every combination of discard_missing in {absent, False, True} x remove_missing in {absent, False, True} x method in
+    {absent, each name}, on series with interior NaNs (so that discarding changes the result), 1-2 variants"""
+    rng = ctx.rng.fork("options")
+    lines = []
+    for dm in "-01":
+        for rm in "-01":
+            for meth in ["-"] + [m for m in METHODS if m != "prod"]:
+                for _ in range(ctx.n(1, 4)):
+                    hi, lo = rng.choice(PAIRS + [("D", "M")])
+                    nv = rng.choice([1, 2])
+                    if hi == "D":
+                        start = dt.date(rng.choice([2019, 2020]), rng.randint(1, 12), rng.randint(1, 28)).toordinal()
+                        n = rng.randint(20, 70)
+                    else:
+                        start = rng.choice([1999, 2020]) * FVAL[hi] + rng.randint(0, FVAL[hi] - 1)
+                        n = rng.randint(FVAL[hi] // FVAL[lo] + 1, 2 * FVAL[hi])
+                    rows = gen_rows(rng, n, nv, 0.3)
+                    lines.append(" ".join(["opt", dm, rm, meth, hi, lo, str(start), str(nv), str(n)] + [vtext(v) for r in rows for v in r]))
+                    ctx.count(f"opt:discard={dm}:remove={rm}")
+    return lines
+
+
 def gen_malformed(ctx: Ctx):
     rng = ctx.rng.fork("malformed")
     lines = []
@@ -1182,9 +1246,11 @@ def run_arip_stream(ctx: Ctx, lines, with_model=True):
     sys_lines, sys_cases, sys_impl = [], [], []
     x_lines, x_cases, x_impl = [], [], []
     items = []          # (replay case, single-variant aripq line, result for that variant, tag)
+    mv = []             # (replay case, model request for all variants at once, implementation results)
     for l in lines:
         if l.split()[0] == "aripmv":
             vlines, outs = arip_run_mv(l)
+            mv.append(({"line": l}, vlines, outs))
             for v, (vl, res) in enumerate(zip(vlines, outs)):
                 items.append(({"line": l}, vl, res, f"variant {v} of {len(outs)}: "))
         else:
@@ -1207,6 +1273,34 @@ def run_arip_stream(ctx: Ctx, lines, with_model=True):
         x_lines.append(arip_model_line(l, "arip", "1")); x_cases.append(case); x_impl.append(res)
     if not with_model:
         return
+    # the whole per-variant loop at once: the model's `aripSolveAll` against one call on the multi-variant series
+    mv_ok = []
+    for case, vlines, outs in mv:
+        singular = False
+        for vl in vlines:
+            f, t, start, form, agg, low, target = parse_arip(vl)
+            w = FVAL[t] // FVAL[f]
+            av = AGG_VEC[agg](w) if isinstance(agg, str) else list(agg)
+            if arip_exact_minimiser(f, t, form, low_effective(low, target, w), av, target) is None:
+                singular = True
+        if not singular and all("y" in o for o in outs):
+            mv_ok.append((case, "aripmv 1 " + " | ".join(arip_model_line(vl, "arip", "1").split(" ", 2)[2] for vl in vlines), outs))
+    replies = ctx.model("C12", [m[1] for m in mv_ok])
+    if replies is not None:
+        ctx.streams_compared["arip-variants"] = ctx.streams_compared.get("arip-variants", 0) + len(mv_ok)
+        for (case, _, outs), rep in zip(mv_ok, replies):
+            parts = [p.strip() for p in rep.split("|")]
+            bad = len(parts) != len(outs)
+            for o, ptxt in zip(outs, parts):
+                if bad or ptxt.startswith("err") or ptxt == "bad-op":
+                    bad = True
+                    break
+                xs = [float(Fr(z)) for z in ptxt.split()]
+                scale = max([1.0] + [abs(v) for v in o["y"]])
+                if len(xs) != len(o["y"]) or max(abs(a - b) for a, b in zip(xs, o["y"])) > 1e-7 * scale:
+                    bad = True
+            if bad:
+                ctx.disagree("arip-variants", case, [[round(v, 9) for v in o["y"][:4]] for o in outs], rep[:200])
     ctx.compare("arip-system-matrices", sys_cases, sys_impl, ctx.model("C12", sys_lines))
     model = ctx.model("C12", x_lines)
     if model is not None:
@@ -1276,6 +1370,7 @@ def run(ctx: Ctx):
     run_series_stream(ctx, "agg-daily-boundaries", gen_agg_daily_boundaries(ctx))
     run_series_stream(ctx, "agg-select", gen_agg_select(ctx))
     run_series_stream(ctx, "malformed", gen_malformed(ctx))
+    run_series_stream(ctx, "options", gen_options(ctx))
     run_series_stream(ctx, "disaggregate", gen_dis(ctx))
     run_series_stream(ctx, "disaggregate-daily", gen_dis_daily(ctx))
     run_series_stream(ctx, "roundtrip", gen_rt(ctx))
@@ -1291,7 +1386,7 @@ def search(ctx: Ctx, seeds):
     lines = [c["line"] for c in seeds if isinstance(c, dict) and "line" in c]
     run_lines(ctx, lines, "seeds", with_model=False)
     ctx.tier = "thorough"
-    for gen in (gen_agg_regular, gen_agg_daily, gen_agg_daily_boundaries, gen_agg_select, gen_dis, gen_dis_daily, gen_rt):
+    for gen in (gen_agg_regular, gen_agg_daily, gen_agg_daily_boundaries, gen_agg_select, gen_options, gen_dis, gen_dis_daily, gen_rt):
         run_series_stream(ctx, "search", gen(ctx), with_model=False)
     run_arip_stream(ctx, gen_arip(ctx, 300) + gen_arip_mv(ctx, 150), with_model=False)
     run_reuse_stream(ctx, gen_reuse(ctx))
